@@ -1,20 +1,30 @@
 #!/usr/bin/env python3
-"""Prints the markdown tables of DESIGN.md section 8.2 (harnesses) and 8.5 (seeded changes) from
-harness/index.json and seeded/*/meta.json, so the document cannot drift from what is registered."""
-import json, os, glob
-idx = json.load(open('/verif/harness/index.json'))
-print("| harness | package / entry | bounds (quick → thorough parameters) | outside the claim |")
-print("|---|---|---|---|")
+"""Regenerates, inside DESIGN.md, the harness table (8.2) and the seeded-change table (8.5) from
+harness/index.json and seeded/*/meta.json, so the document cannot drift from what is registered.
+Usage: gen_design_tables.py [--print]"""
+import json, os, glob, sys, re
+root = '/verif'
+idx = json.load(open(f'{root}/harness/index.json'))
+h = ["| harness | package / entry | bounds (quick → thorough parameters) | outside the claim |", "|---|---|---|---|"]
 for pid in sorted(idx['properties']):
-    for h in idx['properties'][pid]['harnesses']:
-        q = ", ".join(f"{k}={v}" for k, v in h.get('quick', {}).items()) or "–"
-        t = ", ".join(f"{k}={v}" for k, v in h.get('thorough', {}).items()) or "–"
+    for x in idx['properties'][pid]['harnesses']:
+        q = ", ".join(f"{k}={v}" for k, v in x.get('quick', {}).items()) or "–"
+        t = ", ".join(f"{k}={v}" for k, v in x.get('thorough', {}).items()) or "–"
         par = "" if q == t == "–" else f" [{q} → {t}]"
-        print(f"| `{h['name']}` | `{h['pkg']}` `{h['entry']}` | {h.get('bounds','')}{par} | {h.get('outside','')} |")
-print()
-print("| seeded change | property | what it needs to show | caught by |")
-print("|---|---|---|---|")
-for d in sorted(glob.glob('/verif/seeded/*/meta.json')):
+        h.append(f"| `{x['name']}` | `{x['pkg']}` `{x['entry']}` | {x.get('bounds','')}{par} | {x.get('outside','')} |")
+s = ["| seeded change | property | what it needs to show | caught by |", "|---|---|---|---|"]
+for d in sorted(glob.glob(f'{root}/seeded/*/meta.json')):
     m = json.load(open(d))
     c = ", ".join(f"`{x}`" for x in m['caught_by']) or "**missed**"
-    print(f"| `{m['seed_id']}` | {m['property']} | {m['needs_to_manifest']} | {c} |")
+    s.append(f"| `{m['seed_id']}` | {m['property']} | {m['needs_to_manifest']} | {c} |")
+if '--print' in sys.argv:
+    print("\n".join(h)); print(); print("\n".join(s)); sys.exit(0)
+doc = open(f'{root}/DESIGN.md').read()
+def repl(doc, tag, lines):
+    a, b = f'<!-- BEGIN GENERATED {tag} -->\n', f'<!-- END GENERATED {tag} -->'
+    i, j = doc.index(a) + len(a), doc.index(b)
+    return doc[:i] + "\n".join(lines) + "\n" + doc[j:]
+doc = repl(doc, 'harness-table', h)
+doc = repl(doc, 'seed-table', s)
+open(f'{root}/DESIGN.md', 'w').write(doc)
+print("DESIGN.md tables regenerated:", len(h) - 2, "harnesses,", len(s) - 2, "seeded changes")
